@@ -40,7 +40,20 @@ REAL = ["cdd (working tree) via cdd.__main__.main", "cdd's own parsers as the 'w
         "tmpfs file system"]
 STUBBED = ["durability of write-mode files (SimFile)", "OS errors", "process crash (SimCrash)", "the user (edits, recovery)"]
 KINDS = ("class", "function", "argparse_function")
-FILES = {"class": "cls.py", "function": "fn.py", "argparse_function": "ap.py"}
+DEFAULT_FILES = {"class": "cls.py", "function": "fn.py", "argparse_function": "ap.py"}
+FILES = dict(DEFAULT_FILES)     # per-plan: `_set_files(project)` at the start of simulate(), reset at its end
+
+
+def _shared(p):
+    """One file listed for two roles (class and argparse function live in both.py) — only when both are in a file."""
+    return bool(p.get("shared")) and all(p["states"][k] in ("present", "absent") for k in ("class", "argparse_function"))
+
+
+def _set_files(p):
+    FILES.clear()
+    FILES.update(DEFAULT_FILES)
+    if p is not None and _shared(p):
+        FILES["class"] = FILES["argparse_function"] = "both.py"
 TYPES = gen.SIMPLE_TYPES + ("Optional[int]", "Optional[str]", "Literal['a', 'b']")
 
 
@@ -48,7 +61,8 @@ def probes():
     return ["sync_ok", "class_target_rewritten", "target_appended_to_existing_file", "empty_file_filled",
             "missing_file_created", "second_sync_noop_checked", "truth_class", "truth_function", "truth_argparse",
             "fault_fired", "crash_fired", "recovery_delete", "recovery_empty", "recovery_restore", "convergence_checked",
-            "user_edit", "restart", "method_target", "black_absent", "decoy_same_name_nested", "third_sync_noop_checked"]
+            "user_edit", "restart", "method_target", "black_absent", "decoy_same_name_nested", "third_sync_noop_checked",
+            "one_file_listed_for_two_roles"]
 
 
 # ------------------------------------------------------------------------------------ generators
@@ -69,7 +83,8 @@ def project(draw):
             "no_trailing_newline": draw(st.integers(0, 7)) == 7,
             # a surrounding definition that *contains* something named like the target (nested class / method of
             # another class): unrelated code by the statement, a trap for name-only lookups
-            "decoy": draw(st.integers(0, 3)) == 3}
+            "decoy": draw(st.integers(0, 3)) == 3,
+            "shared": draw(st.integers(0, 5)) == 5}
 
 
 @st.composite
@@ -149,15 +164,16 @@ def render_file(p, kind, spec, state):
     if not p["extras"] and state == "absent" and not (kind == "function" and p["method"]):
         parts.append("OTHER = LIMIT + 1\n")
     text = "".join(parts)
-    if p.get("no_trailing_newline") and state == "absent":
+    if p.get("no_trailing_newline") and state == "absent" and not _shared(p):
         text = text.rstrip("\n")
     return text
 
 
 def sync_argv(p, truth, wrap):
-    argv = ["sync", "--class", "{ROOT}/cls.py", "--class-name", target_name(p, "class"),
-            "--function", "{ROOT}/fn.py", "--function-name", target_name(p, "function"),
-            "--argparse-function", "{ROOT}/ap.py", "--argparse-function-name", "set_cli_args", "--truth", truth]
+    argv = ["sync", "--class", "{ROOT}/" + FILES["class"], "--class-name", target_name(p, "class"),
+            "--function", "{ROOT}/" + FILES["function"], "--function-name", target_name(p, "function"),
+            "--argparse-function", "{ROOT}/" + FILES["argparse_function"], "--argparse-function-name", "set_cli_args",
+            "--truth", truth]
     if not wrap:
         argv.append("--no-word-wrap")
     return argv
@@ -244,21 +260,23 @@ def in_domain(iface):
 
 
 def outside_dump(text, kind, name):
-    """ast.dump of the module with the named target removed (docstrings compared up to whitespace)."""
+    """ast.dump of the module with the named target(s) removed (docstrings compared up to whitespace).  `name` may be
+    a list: every named target living in this file is removed (one file can be listed for two roles)."""
     mod = ast.parse(text)
-    parts = name.split(".")
+    for one in ([name] if isinstance(name, str) else list(name)):
+        parts = one.split(".")
 
-    def strip(body, depth):
-        out = []
-        for node in body:
-            if getattr(node, "name", None) == parts[depth]:
-                if depth == len(parts) - 1:
-                    continue
-                node.body = strip(node.body, depth + 1) or [ast.Pass()]
-            out.append(node)
-        return out
+        def strip(body, depth, parts=parts):
+            out = []
+            for node in body:
+                if getattr(node, "name", None) == parts[depth]:
+                    if depth == len(parts) - 1:
+                        continue
+                    node.body = strip(node.body, depth + 1) or [ast.Pass()]
+                out.append(node)
+            return out
 
-    mod.body = strip(mod.body, 0)
+        mod.body = strip(mod.body, 0)
     for node in ast.walk(mod):
         if isinstance(node, ast.Constant) and isinstance(node.value, str):
             node.value = _WS.sub(" ", node.value).strip()
@@ -310,7 +328,7 @@ def simulate(plan):
         d[k] = d.get(k, 0) + n
 
     p = plan["project"]
-    black = plan.get("black", True)
+    black = plan.get("black", True) or _shared(p)   # (a file listed for two roles is explored with black present only)
     if not black:
         bump(probe, "black_absent")
     if p["method"]:
@@ -318,11 +336,18 @@ def simulate(plan):
     if p.get("decoy"):
         bump(probe, "decoy_same_name_nested")
     world = SimWorld(tag="c12")
+    _set_files(p)
     files = {}
     for k in KINDS:
+        if _shared(p) and k == "argparse_function":
+            continue
         text = render_file(p, k, p["specs"][k], p["states"][k])
+        if _shared(p) and k == "class" and p["states"]["argparse_function"] == "present":
+            text = text.rstrip("\n") + "\n\n\n" + render_target(p, "argparse_function", p["specs"]["argparse_function"])
         if text is not None:
             files[FILES[k]] = text
+    if _shared(p):
+        bump(probe, "one_file_listed_for_two_roles")
     files["README.txt"] = "unrelated file in the project directory\n"
     world.write_files(files)
     listed = set(FILES.values())
@@ -344,6 +369,9 @@ def simulate(plan):
                 continue
             if stp["op"] == "edit":
                 k = stp["target"]
+                if _shared(p) and k in ("class", "argparse_function"):
+                    concrete["steps"].append(stp)
+                    continue
                 cur = world.read(FILES[k])
                 if cur is None or not _parses(cur):
                     concrete["steps"].append(stp)
@@ -368,11 +396,14 @@ def simulate(plan):
                 continue  # a torn file is outside the stated domain (recovery failed to run?)
             cp = world.checkpoint()
             fault = None
+            if _shared(p):
+                stp["fault"] = None    # a file listed for two roles is explored fault-free only (torn two-target files
+                #                        multiply the known append-path findings without adding a new question)
             if stp.get("fault") and not hyp.SHRINKING[0] or stp.get("fault") and "at" in stp["fault"]:
                 reh = ops.invoke(world, op, black=black)
                 world.restore(cp)
                 fault = _resolve_fault(stp["fault"], reh.io_events())
-            if plan.get("enum") and si == len(plan["steps"]) - 1 and not hyp.SHRINKING[0]:
+            if plan.get("enum") and si == len(plan["steps"]) - 1 and not hyp.SHRINKING[0] and not _shared(p):
                 reh = ops.invoke(world, op, black=black)
                 world.restore(cp)
                 if reh.ok:
@@ -454,6 +485,7 @@ def simulate(plan):
             stats["world_states"].append(rec["world"])
     finally:
         world.destroy()
+        _set_files(None)
     res.trace = {"kind": "c12-plan", "plan": concrete, "files": files, "history": history}
     res.digest = digest_of([[h.get("op"), h.get("key"), h.get("world")] for h in history])
     res.nontrivial = sync_done and changed_any
@@ -471,8 +503,29 @@ def _b5_sig(p, pre, post, again, f):
     method_lost = f == FILES["function"] and bool(p["method"]) and _safe_parse(
         post[f] or "", "function", target_name(p, "function")) is None
     return {"what": "not_idempotent", "file": f, "formatting_only": fmt_only,
-            "target_was_appended_by_first_sync": states[by_file[f]] == "absent" and fmt_only,
+            # appended = the target was absent from an existing file; or the file is listed for two roles and at least one
+            # of its targets was not there (absent / empty / missing file): the second role always appends
+            "target_was_appended_by_first_sync": fmt_only and (
+                any(states[k_] == "absent" for k_ in KINDS if FILES[k_] == f)
+                or (sum(1 for k_ in KINDS if FILES[k_] == f) >= 2
+                    and any(states[k_] != "present" for k_ in KINDS if FILES[k_] == f))),
             "method_target_not_in_class": method_lost}
+
+
+def _target_dump(text, name):
+    """ast.dump of the named target itself (None if absent): 'left untouched' is judged on the target, not on the file
+    (a file listed for two roles changes when the other target is rewritten)."""
+    try:
+        body = ast.parse(text).body
+    except (SyntaxError, ValueError, TypeError):
+        return None
+    node = None
+    for part in name.split("."):
+        node = next((n for n in body if getattr(n, "name", None) == part), None)
+        if node is None:
+            return None
+        body = getattr(node, "body", [])
+    return ast.dump(node)
 
 
 def _same_ast(a, b):
@@ -669,7 +722,7 @@ def check_sync(p, truth, pre, post, probe, bump, black):
         else:
             d, lossy = compare_iface(truth_if, iface_of(ir), k)
             if d:
-                untouched = states[k] == "present" and pre[f] == post[f]
+                untouched = states[k] == "present" and _target_dump(pre[f], name) == _target_dump(post[f], name)
                 v.append({"clause": "B2", "detail": "%s target %s (initially %s) differs from truth %s: %s" % (
                     k, name, states[k], truth, "; ".join(d[:3])),
                     "sig": {"what": "target_differs", "kind": k,
@@ -686,7 +739,8 @@ def check_sync(p, truth, pre, post, probe, bump, black):
         # B4 outside code unchanged
         if pre[f] not in (None, "") and _parses(pre[f]):
             try:
-                a, b = outside_dump(pre[f], k, name), outside_dump(text, k, name)
+                names_here = [target_name(p, k2) for k2 in KINDS if FILES[k2] == f]
+                a, b = outside_dump(pre[f], k, names_here), outside_dump(text, k, names_here)
             except BaseException:
                 continue
             if a != b:
